@@ -285,6 +285,14 @@ class Abort(Exception):
     pass
 
 
+class _Body:
+    """A statement list presented as a handler-less try body."""
+
+    def __init__(self, body):
+        self.body = body
+        self.handlers = []
+
+
 class _EnvRef:
     """The defining environment of a nested function, by reference (late
     binding) and hashable, so that terms mentioning the closure can key
@@ -1225,8 +1233,30 @@ class Interp:
             fdef = env[f.id][2]
             return self.inline_call(fdef, None, args, kws,
                                     env[f.id][3].env, node)
-        ft = self.eval(f, env)
         fi = self.fstack[-1]
+        ft = None
+        if isinstance(f, ast.Attribute) and isinstance(f.value, ast.Call) \
+                and isinstance(f.value.func, ast.Name) \
+                and f.value.func.id == "super" and not f.value.args \
+                and "super" not in env and fi.params:
+            # super().m(a) is Base.m(self, a) for the next definition of m
+            # along the MRO of the defining class
+            cs = self.P.resolve_call(fi, node)
+            if len(cs) == 1 and cs[0].kind == "repo" \
+                    and cs[0].how == "super":
+                ft = ("global", cs[0].fn.qualname)
+                args = (self.eval(ast.Name(id=fi.params[0], ctx=ast.Load()),
+                                  env),) + tuple(args)
+        if ft is None:
+            ft = self.eval(f, env)
+        if ft[0] == "global" and ft[1] not in self.m.functions \
+                and "." in ft[1]:
+            # Class.m where m is inherited: the function that defines it
+            head, _, attr = ft[1].rpartition(".")
+            if head in self.m.classes:
+                meth = self.m.lookup_method(head, attr)
+                if meth is not None:
+                    ft = ("global", meth.qualname)
         if ft == ("global", "builtins.bool") and len(args) == 1 and not kws:
             return const(self.term_truth(args[0]))
         # every shallow-copy idiom is the same operation
@@ -1365,8 +1395,8 @@ class Interp:
                 elif c.how == "basecall":
                     recv, args = args[0], args[1:]
                 elif c.how == "super" and fi.params:
-                    recv = self.eval(ast.Name(id=fi.params[0],
-                                              ctx=ast.Load()), env)
+                    # (the receiver was put in front of the arguments above)
+                    recv, args = args[0], args[1:]
                 elif c.how == "ctor":
                     recv = self.fresh("new " + c.fn.cls.name)
                 r = self.inline_call(c.fn, recv, args, kws, None, node)
@@ -1497,6 +1527,22 @@ class Interp:
                 else:
                     raise AnalysisError("cannot bind parameter %s inlining %s"
                                         % (nme, fnode.name))
+        kwd = dict(kws)
+        for x, dflt in zip(a.kwonlyargs, a.kw_defaults):
+            if x.arg in kwd:
+                env[x.arg] = kwd[x.arg]
+            elif dflt is not None:
+                env[x.arg] = self.eval(dflt, {})
+            else:
+                raise AnalysisError("cannot bind parameter %s inlining %s"
+                                    % (x.arg, fnode.name))
+        if a.vararg is not None:
+            env[a.vararg.arg] = ("tuple", tuple(vals[len(names):]))
+        if a.kwarg is not None:
+            taken = set(names) | {x.arg for x in a.kwonlyargs}
+            env[a.kwarg.arg] = ("dict", tuple(
+                (const(k), v) for k, v in kws
+                if k is not None and k not in taken))
         self.depth += 1
         if hasattr(callee, "node"):
             self.fstack.append(callee)
@@ -1662,7 +1708,12 @@ class Interp:
                 if it.optional_vars is not None:
                     self.assign(it.optional_vars, v, env, st)
             try:
-                self._block(st.body, env)
+                if self.try_raises:
+                    # like try/finally: what the body calls may raise, and
+                    # the exception passes through the exits
+                    self._try_body(_Body(st.body), env, propagate=True)
+                else:
+                    self._block(st.body, env)
             except (_Return, _Raise, _Break, _Continue):
                 for v in reversed(opened):
                     self.path.effects.append(("close", v, st))
